@@ -193,11 +193,11 @@ def classify_sources(prog, b, sl, br_adts, depth=0):
                 fl = [e for e in p[1:] if isinstance(e, dict) and "f" in e]
                 t = fl[-1].get("t", "") if fl else b.local_ty(ai)
                 if int_width_wide(t) or re.search(r"\((usize|u32|u64)", t or ""):
-                    taints.append(Taint("binrw args passed by the parent parser (%s)" % strip_regions(t), True, ("args", root.id, str(fl[-1].get("f")) if fl else "0")))
+                    taints.append(Taint("binrw args passed by the parent parser (%s)" % strip_regions(t), True, ("args", root.id, str(fl[-1].get("f")) if fl else "0", p[0])))
         for l in sl.locals:
             if l == ai and root is b and re.search(r"\((usize|u32|u64)", b.local_ty(ai) or ""):
                 if not any(t.ident[0] == "args" for t in taints):
-                    taints.append(Taint("binrw args passed by the parent parser (%s)" % b.local_ty(ai), True, ("args", root.id, "0")))
+                    taints.append(Taint("binrw args passed by the parent parser (%s)" % b.local_ty(ai), True, ("args", root.id, "0", ai)))
     return taints
 
 
@@ -242,7 +242,8 @@ def guard_on(prog, b, sink, sl, taints, depth=0):
             hit = False
             if l is not None:
                 s2 = Slice(b, [l], transparent=ARITH)
-                if s2.locals & watch and (mentions(s2, fields) or any(t.ident[0] == "local" and t.ident[2] in s2.locals for t in taints)):
+                if s2.locals & watch and (mentions(s2, fields) or any(t.ident[0] == "local" and t.ident[2] in s2.locals for t in taints)
+                                          or any(t.ident[0] == "args" and t.ident[3] in s2.locals for t in taints)):
                     hit = True
                 if o["k"] in ("cp", "mv") and field_of(o["p"]) in fields:
                     hit = True
